@@ -45,6 +45,31 @@ fn main() {
             props::c01::replay(&args[2]);
             0
         }
+        "replay-seq" => {
+            // evaluates the given sources in order on one interpreter and prints what each did
+            use xeh::prelude::*;
+            let mut xs = boot();
+            let _ = xeh::d2_plugin::load(&mut xs);
+            if std::env::var("XMC_REPLAY_INPUT").is_ok() {
+                xs.set_binary_input(Xbitstr::from(corpus::BIN_INPUT.to_vec())).unwrap();
+            }
+            let _ = xs.intercept_output(true);
+            if let Some(n) = std::env::var("XMC_REPLAY_INSN_LIMIT").ok().and_then(|s| s.parse().ok()) {
+                let _ = xs.set_insn_limit(Some(n));
+            }
+            let compile_run = std::env::var("XMC_REPLAY_STYLE").map(|s| s == "compile+run").unwrap_or(false);
+            for src in &args[2..] {
+                let r = guarded(|| if compile_run { xs.compile(src).and_then(|_| xs.run()) } else { xs.eval(src) });
+                println!("source: {}", src);
+                println!("  result: {:?}", r);
+                println!("  stack:  {:?}", stack_of(&xs));
+                println!("  stdout: {:?}", xs.read_stdout());
+                if let Some(e) = xs.pretty_error() {
+                    println!("  error:  {}", e.replace('\n', " | "));
+                }
+            }
+            0
+        }
         other => machinery_error(&format!("unknown property {}", other)),
     };
     std::process::exit(code);
